@@ -326,36 +326,41 @@ func (o *Object) NextElement(dst *Iter) (name string, t Type, err error) {
 // TypeNone with nil error will be returned if there are no more elements.
 // Contrary to NextElement this will not cause allocations.
 func (o *Object) NextElementBytes(dst *Iter) (name []byte, t Type, err error) {
-	if o.off >= len(o.tape.Tape) {
-		return nil, TypeNone, nil
-	}
-	// Advance must be string or end of object
-	v := o.tape.Tape[o.off]
-	switch Tag(v >> 56) {
-	case TagString:
-		// Read name:
-		// We want name and at least one value.
-		if o.off+2 >= len(o.tape.Tape) {
-			return nil, TypeNone, fmt.Errorf("parsing object element name: unexpected end of tape")
+	var v uint64
+	// Deleted entries are skipped in a loop: the number of adjacent deleted members is not bounded.
+	for {
+		if o.off >= len(o.tape.Tape) {
+			return nil, TypeNone, nil
 		}
-		length := o.tape.Tape[o.off+1]
-		offset := v & JSONVALUEMASK
-		name, err = o.tape.stringByteAt(offset, length)
-		if err != nil {
-			return nil, TypeNone, fmt.Errorf("parsing object element name: %w", err)
+		// Advance must be string or end of object
+		v = o.tape.Tape[o.off]
+		switch Tag(v >> 56) {
+		case TagString:
+			// Read name:
+			// We want name and at least one value.
+			if o.off+2 >= len(o.tape.Tape) {
+				return nil, TypeNone, fmt.Errorf("parsing object element name: unexpected end of tape")
+			}
+			length := o.tape.Tape[o.off+1]
+			offset := v & JSONVALUEMASK
+			name, err = o.tape.stringByteAt(offset, length)
+			if err != nil {
+				return nil, TypeNone, fmt.Errorf("parsing object element name: %w", err)
+			}
+			o.off += 2
+		case TagObjectEnd:
+			return nil, TypeNone, nil
+		case TagNop:
+			skip := int(v & JSONVALUEMASK)
+			if skip <= 0 {
+				return nil, TypeNone, errors.New("object: invalid nop skip")
+			}
+			o.off += skip
+			continue
+		default:
+			return nil, TypeNone, fmt.Errorf("object: unexpected tag %c", byte(v>>56))
 		}
-		o.off += 2
-	case TagObjectEnd:
-		return nil, TypeNone, nil
-	case TagNop:
-		skip := int(v & JSONVALUEMASK)
-		if skip <= 0 {
-			return nil, TypeNone, errors.New("object: invalid nop skip")
-		}
-		o.off += skip
-		return o.NextElementBytes(dst)
-	default:
-		return nil, TypeNone, fmt.Errorf("object: unexpected tag %c", byte(v>>56))
+		break
 	}
 
 	// Read element type
